@@ -23,7 +23,7 @@ for P in sys.argv[4:]:
             shutil.copy(os.path.join(src, f), os.path.join(dst, f))
         m = json.load(open(os.path.join(src, "meta.json")))
         m["property"] = P
-        m["wave"] = 3
+        m["wave"] = int(os.environ.get("WAVE", "3"))
         m["confirmed_by_coordinator"] = dict(c, script="tools/verify_seed.sh (scratch worktree /tmp/wt/verify at /repo HEAD)")
         json.dump(m, open(os.path.join(dst, "meta.json"), "w"), indent=1, ensure_ascii=False)
         print("%s-%d -> %s" % (P, n, os.path.basename(dst)))
